@@ -10,14 +10,22 @@ import (
 
 var errVAPI = errors.New("verif: injected API failure")
 
+// vCur64 is the standard (padded) base64 of the config list being published.
+var vCur64 = "AAEC"
+
 type vRec struct {
 	zone, name, id string
 	value          string
+	zoneID         string
+	prio           int
+	target         string
 }
 
 type vPatch struct {
 	zoneID, recordID string
 	value            string
+	prio             int
+	target           string
 }
 
 // vParam builds one service parameter: a known shape or a few symbolic bytes
@@ -35,14 +43,14 @@ func vParam(allowEch, allowFree bool) string {
 	case 2:
 		if allowEch {
 			if vBool() {
-				return `ech="AAEC"`
+				return `ech="` + vCur64 + `"`
 			}
-			return "ech=AAEC"
+			return "ech=" + vCur64
 		}
 		return "ipv4hint=1.2.3.4"
 	}
 	// free-form parameter: symbolic bytes over the alphabet {e,c,h,=,",a,1}
-	n := vInt(1, 3+vTier())
+	n := vInt(1, 2+2*vTier()) // (four bytes can spell "ech=")
 	b := vBytes(n)
 	for _, c := range b {
 		vAssume(c == 'e' || c == 'c' || c == 'h' || c == '=' || c == '"' || c == 'a' || c == '1')
@@ -67,6 +75,10 @@ func vIsEch(p string) bool { return len(p) >= 4 && p[:4] == "ech=" }
 // verifC20Publish: <= 3 requested targets over a zone table of <= 2 records
 // whose values are <= 3 parameters; each API call may fail.
 func verifC20Publish() {
+	// the config list: its standard base64 has no padding, one or two padding characters, and '+' / '/'
+	cl := [][]byte{{0, 1, 2}, {0xfb, 0xff}, {0xfb}}[vInt(0, 2)]
+	vCur64 = base64.StdEncoding.EncodeToString(cl)
+	vAssert(vCur64 == "AAEC" || vCur64 == "+/8=" || vCur64 == "+w==", "reference base64")
 	table := []vRec{}
 	nrec := vInt(1, 2)
 	for i := 0; i < nrec; i++ {
@@ -87,8 +99,11 @@ func verifC20Publish() {
 			}
 			val += p
 		}
-		table = append(table, vRec{zone: "z1", name: []string{"n1", "n2"}[i], id: []string{"r1", "r2"}[i], value: val})
+		table = append(table, vRec{zone: "z1", name: []string{"n1", "n2"}[i], id: []string{"r1", "r2"}[i], value: val,
+			zoneID: "Z1", prio: i + 1, target: []string{".", "svc.example."}[i]})
 	}
+	// a second zone holds a record of the same name
+	table = append(table, vRec{zone: "z2", name: "n1", id: "r9", value: `alpn="h3"`, zoneID: "Z2", prio: 3, target: "."})
 	failZone := false
 	failPatchAt := -1
 	switch vInt(0, 2) { // fault: none, zone listing fails, first PATCH fails
@@ -101,40 +116,44 @@ func verifC20Publish() {
 	zoneCalls := 0
 	VerifHook_getZoneData = func(cf *CloudflarePublisher, ctx context.Context, zone string, data map[zoneName]idData) error {
 		zoneCalls++
-		if zone != "z1" {
+		if zone != "z1" && zone != "z2" {
 			return errNotFound
 		}
-		if failZone {
+		if failZone && zone == "z1" {
 			return errVAPI
 		}
 		for _, r := range table {
-			data[zoneName{r.zone, r.name}] = idData{ZoneID: "Z1", RecordID: r.id, Data: httpsData{Priority: 1, Target: ".", Value: r.value}}
+			if r.zone == zone {
+				data[zoneName{r.zone, r.name}] = idData{ZoneID: r.zoneID, RecordID: r.id, Data: httpsData{Priority: r.prio, Target: r.target, Value: r.value}}
+			}
 		}
 		return nil
 	}
 	VerifHook_updateRecord = func(cf *CloudflarePublisher, ctx context.Context, zoneID, recordID string, data httpsData) error {
 		idx := len(patches)
-		patches = append(patches, vPatch{zoneID, recordID, data.Value})
+		patches = append(patches, vPatch{zoneID, recordID, data.Value, data.Priority, data.Target})
 		if idx == failPatchAt {
 			return errVAPI
 		}
 		return nil
 	}
-	cl := []byte{0, 1, 2} // contents are irrelevant to the property (base64 is table-driven); "AAEC"
-	want64 := base64.StdEncoding.EncodeToString(cl)
+	want64 := vCur64
 	nt := vInt(1, 2)
 	var targets []Target
 	for i := 0; i < nt; i++ {
 		if i == 1 && vTier() == 0 {
 			// quick tier: the second target is a duplicate of the first or the other record
-			if vBool() {
+			switch vInt(0, 2) {
+			case 0:
 				targets = append(targets, targets[0])
-			} else {
+			case 1:
 				targets = append(targets, Target{Zone: "z1", Name: "n2"})
+			case 2:
+				targets = append(targets, Target{Zone: "z2", Name: "n1"})
 			}
 			continue
 		}
-		targets = append(targets, Target{Zone: []string{"z1", "zX"}[vInt(0, 1)], Name: []string{"n1", "n2", "missing"}[vInt(0, 2)]})
+		targets = append(targets, Target{Zone: []string{"z1", "zX", "z2"}[vInt(0, 1+vTier())], Name: []string{"n1", "n2", "missing"}[vInt(0, 2)]})
 	}
 	cf := &CloudflarePublisher{zoneIDs: map[string]string{}}
 	results := cf.PublishECH(context.Background(), targets, cl)
@@ -151,12 +170,26 @@ func verifC20Publish() {
 				rec = &table[k]
 			}
 		}
+		if res.Code != StatusError {
+			vAssert(res.Error == nil, "an error is attached to error results only")
+		}
 		switch {
-		case tg.Zone != "z1":
+		case tg.Zone != "z1" && tg.Zone != "z2":
 			vAssert(res.Code == StatusNotFound, "unknown zone: not found")
-		case failZone:
-			// the zone listing is attempted once; later targets of the zone find nothing
-			vAssert(res.Code == StatusError || res.Code == StatusNotFound, "zone listing failed: error or not found")
+		case failZone && tg.Zone == "z1":
+			// the zone listing is attempted once: its failure is reported for the first target of
+			// the zone; later targets of the zone find nothing
+			first := true
+			for _, prev := range targets[:i] {
+				if prev.Zone == "z1" {
+					first = false
+				}
+			}
+			if first {
+				vAssert(res.Code == StatusError && errors.Is(res.Error, errVAPI), "a failing zone listing is reported as an error carrying the API failure")
+			} else {
+				vAssert(res.Code == StatusNotFound, "after a failed listing later targets of the zone are not found")
+			}
 		case rec == nil:
 			vAssert(res.Code == StatusNotFound, "missing record: not found")
 		default:
@@ -186,7 +219,8 @@ func verifC20Publish() {
 			vAssert(pi < len(patches), "an existing record with a stale value is patched")
 			if pi < len(patches) {
 				p := patches[pi]
-				vAssert(p.zoneID == "Z1" && p.recordID == rec.id, "the patch names the requested record only")
+				vAssert(p.zoneID == rec.zoneID && p.recordID == rec.id, "the patch names the requested record only, in its own zone")
+				vAssert(p.prio == rec.prio && p.target == rec.target, "priority and target of the record are written back unchanged")
 				got := vSplit(p.value)
 				nEch := 0
 				for _, t := range got {
@@ -209,7 +243,7 @@ func verifC20Publish() {
 					}
 				}
 				if pi == failPatchAt {
-					vAssert(res.Code == StatusError, "failed patch reported as error")
+					vAssert(res.Code == StatusError && errors.Is(res.Error, errVAPI), "failed patch reported as an error carrying the API failure")
 				} else {
 					vAssert(res.Code == StatusUpdated, "patched record reported as updated")
 				}
@@ -218,6 +252,11 @@ func verifC20Publish() {
 		}
 	}
 	vAssert(pi == len(patches), "no write other than those for requested stale records")
+	distinct := map[string]bool{}
+	for _, tg := range targets {
+		distinct[tg.Zone] = true
+	}
+	vAssert(zoneCalls <= len(distinct), "each zone is listed at most once per call")
 	vReach("published")
 	// second publish of the same list after the successful PATCHes were stored:
 	// nothing is current-but-rewritten, nothing else is touched
@@ -234,7 +273,7 @@ func verifC20Publish() {
 		vAssert(len(res2) == len(targets), "second publish: one result per record")
 		vAssert(len(patches) == before, "second publish of a current value performs no write")
 		for i, tg := range targets {
-			if i < len(res2) && tg.Zone == "z1" && tg.Name != "missing" && (tg.Name == "n1" || nrec == 2) {
+			if i < len(res2) && ((tg.Zone == "z1" && tg.Name != "missing" && (tg.Name == "n1" || nrec == 2)) || (tg.Zone == "z2" && tg.Name == "n1")) {
 				vAssert(res2[i].Code == StatusNoChange, "second publish: no change")
 			}
 		}
